@@ -80,7 +80,8 @@ def evaluate_case(case: dict) -> dict:
 def search(chk, rng, n_cases: int, tier: str):
     """Independent oracle: the statement of C09 on the real code. Random real parameters, s above
     all thresholds and away from the poles, poles on both sides of the thresholds."""
-    max_c, max_p = (2, 2) if tier == "quick" else (2, 4)
+    # quick: ≤ 2 poles; thorough, or quick after a broken obligation/correspondence: ≤ 4 poles
+    max_c, max_p = (2, 2) if (tier == "quick" and not chk.broken) else (2, 4)
     n_cfg = 10 if tier == "quick" else 36
     per_cfg = max(4, n_cases // n_cfg)
     bad = []
@@ -332,17 +333,19 @@ MANIFEST = {
         "ρ positive diagonal and K̂ Hermitian ⇒ √ρK̂(1−iρK̂)⁻¹√ρ = K'(1−iK')⁻¹ with K' = √ρK̂√ρ, hence unitary/symmetric; the pole "
         "parametrisation Σ_R g_Ri g_Rj/(m_R²−s) is real symmetric for real g (Finset sum, any number of poles). Tied to the source: the "
         "entries of formulate(parametrize=False) for n = 1, 2 (both classes, T̂ and T), the parametrisations (n_R = 1..4) and the full "
-        "formulate(n, n_R) results for n, n_R ∈ {1,2} are re-translated on every run and 69 theorems are re-checked: the "
+        "formulate(n, n_R) results for n, n_R ∈ {1,2} are re-translated on every run and 71 theorems are re-checked: the "
         "regenerated entries solve E(1−iK) = K resp. Ê(1−iρK̂) = K̂ (polynomial identities mod i² = −1) and therefore ARE the abstract "
         "formula wherever det ≠ 0; T = (√ρ)*T̂√ρ; the regenerated parametrisations are symmetric and real (non-negative widths; for the "
-        "relativistic case under the guard ρ_i(m_R²) > 0, i.e. poles above thresholds) and equal the all-poles formula (n=n_R=2, "
-        "non-relativistic); formulate = matrix expression ∘ parametrisation; hence formulate(n, n_R) is unitary and symmetric. "
-        "Thorough tier: the same entry-level theorems for n = 3 (Props/C09N3, 14 theorems; the 3×3 symbolic inverse is extracted in a "
-        "time-capped subprocess). Bounded part: the entry-level tie is for n ≤ 3 (matrix expression) and n, n_R ≤ 2 (full formulate); "
-        "n_R = 3, 4 parametrisation only, full formulate with n = 3 or n_R ≤ 4 numerically (thorough oracle); form factors and "
-        "phase-space factors are leaves with sign hypotheses. Known finding: the relativistic K-matrix with a pole mass below a channel "
-        "threshold is not unitary (kernel-checked witness relForm11_witness_subthreshold; the oracle classifies such inputs by "
-        "signature, any other failing input is a violation)."
+        "relativistic case under the guard ρ_i(m_R²) > 0, i.e. poles above thresholds) and — both classes, n = n_R = 2 — ARE instances "
+        "of the all-poles formula with g_Ri = γ_Ri√(m_RΓ_Ri(s)) (nrK22_eq_poleK, relK22_eq_poleK), so that the all-n/all-poles "
+        "theorems apply to the source's own parametrization (relK22_all_poles_unitary_symmetric); formulate = matrix expression ∘ "
+        "parametrisation; hence formulate(n, n_R) is unitary and symmetric. Thorough tier: the same entry-level theorems for n = 3 "
+        "(Props/C09N3, 14 theorems; the 3×3 symbolic inverse is extracted in a time-capped subprocess) and the full formulate(n, n_R) "
+        "for n ∈ {1,2}, n_R ∈ {3,4} (Props/C09P34, 32 theorems) — 117 theorems in total. Bounded part: full formulate with n = 3 only "
+        "numerically (thorough oracle, n_R ≤ 2); n_R = 3, 4 full formulate in the thorough tier only (quick: parametrisation level); the "
+        "poleK instance theorems are for n = n_R = 2; form factors and phase-space factors are leaves with sign hypotheses. Known "
+        "finding: the relativistic K-matrix with a pole mass below a channel threshold is not unitary (kernel-checked witness "
+        "relForm11_witness_subthreshold; the oracle classifies such inputs by signature, any other failing input is a violation)."
     ),
     "level_note": (
         "Trusted: Lean kernel + Mathlib (axioms propext, Classical.choice, Quot.sound); the sympy->Lean translator incl. the leaf "
